@@ -7,15 +7,15 @@ import (
 )
 
 type FuncInfo struct {
-	fn      *ssa.Function
-	regIdx  map[ssa.Value]int
-	nregs   int
-	rpo     []int     // block index -> rpo number
-	loops   [][]int   // block index -> chain of loop header block indices, outermost first
-	inLoop  []map[int]bool // header block index -> set of member block indices (indexed by header)
-	liveIn  [][]bool  // block index -> reg live after the phis of the block
-	nphis   []int     // number of leading phi instructions per block
-	ninstr  int
+	fn     *ssa.Function
+	regIdx map[ssa.Value]int
+	nregs  int
+	rpo    []int          // block index -> rpo number
+	loops  [][]int        // block index -> chain of loop header block indices, outermost first
+	inLoop []map[int]bool // header block index -> set of member block indices (indexed by header)
+	liveIn [][]bool       // block index -> reg live after the phis of the block
+	nphis  []int          // number of leading phi instructions per block
+	ninstr int
 }
 
 func (c *Ctx) info(fn *ssa.Function) *FuncInfo {
